@@ -76,6 +76,11 @@ def obligations(tier, seed):
                                     'VF_STATIC_FACT(au::make_constant(au::Meters{} * au::mag<3>() * au::pow<-1030>(au::mag<2>())).in<double>(au::meters) == (3.0 * std::numeric_limits<double>::min()) / 256.0);'))
     probes.append(('binade_f32', 'VF_STATIC_FACT(au::make_constant(au::Meters{} * au::pow<127>(au::mag<2>())).can_store_value_in<float>(au::meters));\n'
                                  'VF_STATIC_FACT(!au::make_constant(au::Meters{} * au::pow<128>(au::mag<2>())).can_store_value_in<float>(au::meters));'))
+    # "changes only the unit": the result UNIT (and rep) of number / quantity / magnitude / maker / constant combined with a constant, as types
+    RU = '#include <type_traits>\n#include "au/au.hh"\n#include "au/constants/speed_of_light.hh"\n#include "au/units/meters.hh"\n#include "au/units/seconds.hh"\nusing namespace au;\nusing Uc = detail::SpeedOfLightUnit;\ntemplate <class Q> using UnitOf = typename Q::Unit;\n#define SAMEU(Q, U) static_assert(AreUnitsQuantityEquivalent<UnitOf<Q>, U>::value && std::is_same<detail::DimT<UnitOf<Q>>, detail::DimT<U>>::value, "unit")\nint main(){\n  constexpr auto c = SPEED_OF_LIGHT;\n  SAMEU(decltype(3 * c), Uc); SAMEU(decltype(c * 3), Uc); SAMEU(decltype(3.0 / c), UnitInverseT<Uc>); SAMEU(decltype(c / 3), Uc);\n  SAMEU(decltype(seconds(2) * c), decltype(Seconds{} * Uc{})); SAMEU(decltype(c * seconds(2)), decltype(Seconds{} * Uc{}));\n  SAMEU(decltype(seconds(2.0) / c), decltype(Seconds{} / Uc{})); SAMEU(decltype(c / seconds(2.0)), decltype(Uc{} / Seconds{}));\n  static_assert(std::is_same<decltype(3 * c)::Rep, int>::value && std::is_same<decltype(c * 2.5f)::Rep, float>::value, "rep");\n  static_assert(std::is_same<decltype(c * c), Constant<decltype(Uc{} * Uc{})>>::value, "c*c");\n  static_assert(std::is_same<decltype(c / c), Constant<decltype(Uc{} / Uc{})>>::value, "c/c");\n  static_assert(AreUnitsQuantityEquivalent<AssociatedUnitT<decltype(c * mag<3>())>, decltype(Uc{} * mag<3>())>::value, "c*mag");\n  static_assert(AreUnitsQuantityEquivalent<AssociatedUnitT<decltype(c * meters)>, decltype(Uc{} * Meters{})>::value, "c*maker");\n  static_assert(AreUnitsQuantityEquivalent<AssociatedUnitT<decltype(meters / c)>, decltype(Meters{} / Uc{})>::value, "maker/c");\n}\n'
+    obs.append(Ob(id='C16.static.result-units', prop='C16', group='C16.static', prelude='', wrappers=[], inputs=[], kind='S', body=RU,
+                  contract='static facts: x*C, C*x, x/C, C/x, q*C, C*q, q/C, C/q carry the product / quotient of the units (and the rep of the number); C*C, C/C are Constants of the '
+                           'squared / cancelled unit; C*mag, C*maker, maker/C scale or combine the unit (C = SPEED_OF_LIGHT)', functions_under_contract=('au::Constant operators (result types, compile-time)',)))
     sel = probes if tier == 'thorough' else probes[:-12][::2] + probes[-12:]
     for (nm, text) in sel:
         obs.append(Ob(id='C16.static.%s' % nm, prop='C16', group='C16.static', prelude='', wrappers=[], inputs=[], body=HDR + text + '\nint main() {}\n', kind='S',
